@@ -50,7 +50,9 @@ META = {
     'rule': ('case = one history (connection cache on/off, read mode A/B, ≤ 30 ops over 8 classes eager/lazy/uncached/'
              'lazy+uncached + four classes with a ForeignKey to the eager one (cascade=null eager/lazy/uncached, cascade=True) + two '
              'string-keyed classes; JSONCol columns (stored text != shown value) on eager, lazy and string-keyed classes; ids 1..5 given in '
-             'the canonical or the other Python type; library bulk deletes (deleteBy/deleteMany) and key re-use); distinct = distinct op sequences; non-trivial = history contains a write followed by '
+             'the canonical or the other Python type; library bulk deletes (deleteBy/deleteMany) and key re-use; two families of '
+             'like-named classes in two registries with crossed int/string ids and keys between them; StringCol values with %, %% and quotes; '
+             'selects consumed row by row with writes in between; the object-valued accessor of foreign keys; unpickling); distinct = distinct op sequences; non-trivial = history contains a write followed by '
              'expire/sync/select/destroy or an injected failure'),
     'trusted': ['SQLite in-memory engine as the row store (raw SELECT through a second cursor is the oracle)',
                 'harness bookkeeping of which row a held instance stands for, and of pending lazy assignments'],
@@ -60,7 +62,10 @@ META = {
                  '(new instance) or refresh (held instance); proved separately under C04',
                  'event listeners, joins, foreign keys, column kinds other than IntCol, per-connection instances, threads',
                  'lazyUpdate together with cacheValues=False shows the stored value, not the pending one (noted, excluded from the read theorem by hypothesis)'],
-    'assumptions': ['translated-method theorems: the class has at least one column (two for _SO_getValue); no signal listener is '
+    'assumptions': ['lazily consumed selects: the DB-API driver reads ONE row ahead, so a write to exactly the row an open '
+                    'iteration hands out next is overwritten in the instance by the older copy (reported finding); the '
+                    'generator does not write to that row, everything beyond one row of look-ahead is checked',
+                    'translated-method theorems: the class has at least one column (two for _SO_getValue); no signal listener is '
                     'connected; set(**kw) with a keyword that is not a column: proved (TypeError, nothing changed) when the '
                     'column keywords are valid (the hand model reports the unknown name before it validates, the code after); '
                     '"the object has _SO_val_ attributes only for its columns" and "pending keys are columns" are '
